@@ -83,6 +83,8 @@ type NodeCfg struct {
 	// DNSIntruder: when set, the host goes on using the DNS map it passed to the factory: after every
 	// build it adds this never-configured address to that map object and drops a configured one
 	DNSIntruder string
+	// TypedNilAccounts: absent accounts are passed as account handles whose pointer is nil
+	TypedNilAccounts bool
 }
 
 type gasFactory interface {
